@@ -50,6 +50,10 @@ type Cache struct {
 	AllowAny bool
 	// IPMode of the proxy; virtual host domains contain only VIPs of supported families
 	IPMode int
+	// IncludeRequestAttemptCount and XForwardedHost are the per proxy ProxyConfig.proxyHeaders settings
+	// that end up in the virtual hosts (include_request_attempt_count) and routes (append_x_forwarded_host)
+	IncludeRequestAttemptCount bool
+	XForwardedHost             bool
 
 	ListenerPort     int
 	Services         []*model.Service
@@ -142,6 +146,10 @@ func (r *Cache) Key() any {
 	h.WriteString(strconv.FormatBool(r.AllowAny))
 	h.Write(Separator)
 	h.WriteString(strconv.Itoa(r.IPMode))
+	h.Write(Separator)
+	h.WriteString(strconv.FormatBool(r.IncludeRequestAttemptCount))
+	h.Write(Separator)
+	h.WriteString(strconv.FormatBool(r.XForwardedHost))
 	h.Write(Separator)
 
 	for _, svc := range r.Services {
